@@ -4,6 +4,7 @@ import (
 	"slices"
 	"strings"
 
+	"github.com/AdguardTeam/golibs/netutil"
 	"github.com/AdguardTeam/urlfilter"
 	"github.com/AdguardTeam/urlfilter/filterlist"
 )
@@ -24,8 +25,24 @@ type IgnoreEngine struct {
 // NewIgnoreEngine creates a new instance of the IgnoreEngine and stores the
 // list of rules for ignoring hostnames.
 func NewIgnoreEngine(ignored []string) (e *IgnoreEngine, err error) {
+	rulesText := &strings.Builder{}
+	for _, r := range ignored {
+		r = strings.ToLower(r)
+		if name := strings.TrimSuffix(r, "."); netutil.ValidateDomainName(name) == nil {
+			// It is a plain name, which stands for exactly that host.  Not
+			// every such name makes a rule that matches the host and nothing
+			// else when it is written as is: the one with the final dot of the
+			// fully qualified form, and the one that doesn't end with a label of
+			// letters, like "nas1", don't.
+			r = "|" + name + "^"
+		}
+
+		rulesText.WriteString(r)
+		rulesText.WriteString("\n")
+	}
+
 	ruleList := &filterlist.StringRuleList{
-		RulesText:      strings.ToLower(strings.Join(ignored, "\n")),
+		RulesText:      rulesText.String(),
 		IgnoreCosmetic: true,
 	}
 	ruleStorage, err := filterlist.NewRuleStorage([]filterlist.RuleList{ruleList})
